@@ -167,8 +167,10 @@ ADDENDA = {
  "C20": ("Added: tessellator / subsample / snapper control flow regenerated (translator_c10).", ""),
 }
 ADDENDA2 = {
+ "C02": "Later: the distance cascade is PROVED exact on Normalize outputs (compareDistances_exact, compareDistance_exact for 0 <= r2 <= 4; C02_DistanceExact.lean); defect D54 found by the proof and repaired.",
+ "C19": "Later: cap AddPoint / AddCap / Union / Expanded proved for binary64 itself on Normalize-grade vectors, exact Contains / Intersects / Complement readings refuted and proved up to explicit allowances (C19_CapBinary64.lean).",
  "C04": "Later: edge clipping regenerated and proved equal to the build model (translator_c04).",
- "C05": "Later: Cell / CellUnion region predicates tied to the region values of the end-to-end theorems, float region predicates pinned (translator_c07).",
+ "C05": "Later: Cell / CellUnion region predicates tied to the region values of the end-to-end theorems, float region predicates pinned (translator_c07). Defect D56 (Rect.IntersectsCell, edge longitude span) found by the thorough tier and repaired; generator family lens.",
  "C06": "Later: I1 proved without MergeComplete, I3 and 'queries on the built index = brute force' proved under three named statements of exact geometry (C06_BuildI3.lean); "
         "index construction and padded cells regenerated (translator_c04); defect D52 (shape-id sentinel after Remove) found and repaired; the check also runs the containment paths.",
  "C07": "Later: the relation walk and the polygon relations regenerated as step equations of the model (translator_c07, 357 ties).",
@@ -178,7 +180,7 @@ ADDENDA2 = {
  "C13": "Later: target objects with their inner state are in the model (C13_Targets.lean), target methods regenerated; footprint obligation for iterator creation sites.",
  "C14": "Later: the footprint of the Go code is a regenerated decidable obligation linked to the proved protocol model (C14_Footprint.lean).",
  "C15": "Later: the IR guards are tied to the regenerated model decoders (C15_Decode).",
- "C16": "Later: after repair D50 bit identity in all 8 argument orders is PROVED as stated for every in-contract input (C16_Canonical.lean).",
+ "C16": "Later: after repair D50 bit identity in all 8 argument orders is PROVED as stated for every in-contract input (C16_Canonical.lean); the 8*2^-53 accuracy clause and unit length (10*2^-53) are PROVED outside the D38 class under the explicit StableSide conditions (C16_Accuracy.lean).",
 }
 for _k, _t in ADDENDA2.items():
     ADDENDA[_k] = (ADDENDA[_k][0] + " " + _t, ADDENDA[_k][1]) if _k in ADDENDA else (_t, "")
